@@ -20,10 +20,13 @@ pub struct EscCase {
     /// (dont_delimit_trailing_values, inference, ...) are declared on `prog` only and have to reach `sub`
     #[serde(default)]
     pub nested: bool,
+    /// nested two levels deep (`prog mid sub <line>`): global settings have to travel through `mid`
+    #[serde(default)]
+    pub deep: bool,
 }
 
 /// `prog` with the described command as its only subcommand `sub` (see `EscCase::nested`)
-fn nest(spec: &CmdSpec) -> CmdSpec {
+fn nest(spec: &CmdSpec, deep: bool) -> CmdSpec {
     let mut inner = spec.clone();
     inner.name = "sub".to_owned();
     inner.term_width = None;
@@ -33,7 +36,18 @@ fn nest(spec: &CmdSpec) -> CmdSpec {
     outer.settings.infer_subcommands = spec.settings.infer_subcommands;
     outer.settings.args_override_self = spec.settings.args_override_self;
     outer.settings.dont_delimit_trailing_values = spec.settings.dont_delimit_trailing_values;
-    outer.subs.push(inner);
+    if deep {
+        let mut mid = CmdSpec { name: "mid".to_owned(), ..Default::default() };
+        mid.settings.inherit_globals = true;
+        mid.settings.infer_long_args = spec.settings.infer_long_args;
+        mid.settings.infer_subcommands = spec.settings.infer_subcommands;
+        mid.settings.args_override_self = spec.settings.args_override_self;
+        mid.settings.dont_delimit_trailing_values = spec.settings.dont_delimit_trailing_values;
+        mid.subs.push(inner);
+        outer.subs.push(mid);
+    } else {
+        outer.subs.push(inner);
+    }
     outer
 }
 
@@ -207,13 +221,14 @@ impl Property for Escape {
         let n = t.weighted(&[1, 2, 3, 3, 2, 1, 1, 1, 1]);
         let tail: Vec<String> = (0..n).map(|_| { let v: &Vec<u8> = t.pick(&pool[..]); show_bytes(v) }).collect();
         let nested = t.chance(1, 4);
-        EscCase { spec, prefix, head, tail, nested }
+        let deep = nested && t.bool();
+        EscCase { spec, prefix, head, tail, nested, deep }
     }
     fn run(&self, case: &EscCase, ctx: &mut Ctx) -> Verdict {
         if case.head.is_empty() {
             return Verdict::Discard("no-unambiguous-spelling");
         }
-        let built = if case.nested { build_checked(&nest(&case.spec)) } else { build_checked(&case.spec) };
+        let built = if case.nested { build_checked(&nest(&case.spec, case.deep)) } else { build_checked(&case.spec) };
         let cmd = match built {
             Built::Ok(c) => c,
             Built::Invalid(_) => return Verdict::Discard("invalid-config"),
@@ -222,7 +237,11 @@ impl Property for Escape {
         // (nested: the line is given to `prog sub`, everything is observed on the matches of `sub`)
         let line = |argv: &[Vec<u8>]| -> Vec<Vec<u8>> {
             if case.nested && !argv.is_empty() {
-                let mut v = vec![argv[0].clone(), b"sub".to_vec()];
+                let mut v = vec![argv[0].clone()];
+                if case.deep {
+                    v.push(b"mid".to_vec());
+                }
+                v.push(b"sub".to_vec());
                 v.extend(argv[1..].iter().cloned());
                 v
             } else {
@@ -230,7 +249,9 @@ impl Property for Escape {
             }
         };
         let inner = |m: &clap::ArgMatches| -> Option<clap::ArgMatches> {
-            if case.nested {
+            if case.nested && case.deep {
+                m.subcommand_matches("mid").and_then(|m| m.subcommand_matches("sub")).cloned()
+            } else if case.nested {
                 m.subcommand_matches("sub").cloned()
             } else {
                 Some(m.clone())
